@@ -1,3 +1,5 @@
 pub mod interp;
 pub mod util;
 pub mod s_merkle;
+pub mod refcodec;
+pub mod s_wire;
